@@ -54,6 +54,8 @@ func (t *T0x0102) Parse(jtMsg *jt808.JTMessage) error {
 		}
 		t.SoftwareVersion = string(data)
 	} else {
+		// 2013版本只有鉴权码 复用对象时不保留上一次2019版本解析出的字段
+		t.AuthCodeLen, t.TerminalIMEI, t.SoftwareVersion = 0, "", ""
 		t.AuthCode = string(body)
 	}
 	return nil
